@@ -823,10 +823,10 @@ func oracle(ops, outs []string) *corr.Violation {
 				sig := "fee-share-credit-mismatch"
 				if changed == 0 && share.Sign() > 0 {
 					sig = "fee-share-credited-to-nobody"
-					// classification only: some registered authorizer named in the payload has a pool that
-					// DistributeRewards skips (killed, or total stake below the pool's minimum stake)
+					// classification only: some id named in the payload has a stake pool that DistributeRewards
+					// skips (killed, or total stake below the pool's minimum stake)
 					for _, sg := range p.sigs {
-						if pl, ok := prev.pools[sg.key]; ok && prev.reg[sg.key] && (pl.killed || pl.stake.Cmp(pl.minStake) < 0) {
+						if pl, ok := prev.pools[sg.key]; ok && (pl.killed || pl.stake.Cmp(pl.minStake) < 0) {
 							sig = "fee-share-dropped-understaked-or-killed-pool"
 						}
 					}
